@@ -532,7 +532,9 @@ func Replay(harnesses map[string]func()) (status, detail string) {
 	if _, sched := cex.Values["$sched#0"]; sched && !freeRun {
 		firstDetail := fmt.Sprintf("controlled schedule: failed natively %v, reached %v", Failed, Reached)
 		t0 := time.Now()
-		for iter := 1; iter <= 300 && time.Since(t0) < 8*time.Second; iter++ {
+		ranFree := 0
+		for iter := 1; iter <= 5000 && time.Since(t0) < 8*time.Second; iter++ {
+			ranFree = iter
 			Reset()
 			load()
 			freeRun = true
@@ -551,7 +553,7 @@ func Replay(harnesses map[string]func()) (status, detail string) {
 				return "reproduced", fmt.Sprintf("assertion %q fails natively under the Go scheduler (free-running threads, iteration %d); %s", cex.Label, iter, firstDetail)
 			}
 		}
-		return "not-reproduced", fmt.Sprintf("assertion %q holds natively in the controlled schedule and in up to 300 free-running runs (%s)", cex.Label, firstDetail)
+		return "not-reproduced", fmt.Sprintf("assertion %q holds natively in the controlled schedule and in %d free-running runs (%s)", cex.Label, ranFree, firstDetail)
 	}
 	return "not-reproduced", fmt.Sprintf("assertion %q holds natively (failed natively: %v, missing draws: %v, reached: %v, trace: %v)", cex.Label, Failed, Missing, Reached, Trace)
 }
